@@ -594,9 +594,18 @@ func judgeReplaced(r *Run, j *Judged, cl []*cls, by map[int]*OResp) {
 			}
 			// another validation of the same resource in flight at the same time works on its own copy of the
 			// entry and may legitimately finish later: which write lands last is then a race, not a defect
+			// (a background validation is bound to the entry its exchange selected when it was invoked: it has
+			// "begun" then, well before its origin call starts - an earlier validation that re-keys that entry
+			// in between, e.g. a 304 with another Vary, leaves it validating a copy the index no longer names)
+			began := func(c *UpCall) uint64 {
+				if x := r.exchFor(c.Owner, c.OwnerOp); x != nil && !c.Fg && x.SeqInv != 0 && x.SeqInv < c.SeqStart {
+					return x.SeqInv
+				}
+				return c.SeqStart
+			}
 			overlap := false
 			for _, o := range r.Calls {
-				if o != u && o.Res == res && o.SeqStart < done && (!o.Ended || r.lastSeqOfLineage(o) > u.SeqStart) {
+				if o != u && o.Res == res && began(o) < done && (!o.Ended || r.lastSeqOfLineage(o) > began(u)) {
 					overlap = true
 				}
 			}
